@@ -25,7 +25,7 @@ Fixpoint alpha_loop (fuel : nat) (radix val li corr : N) (acc : list N) : option
            if 0 <? val' then alpha_loop f radix val' li' corr' acc' else Some acc'
   end.
 
-Definition alpha_fuel (val : N) : nat := S (S (N.to_nat (N.size val))).
+Definition alpha_fuel (val : N) : nat := S (N.to_nat (N.size val)).
 
 Definition alpha_indices (radix val : N) : option (list N) :=
   alpha_loop (alpha_fuel val) radix val 1 0 [].
